@@ -665,14 +665,21 @@ int main(int argc, char** argv)
   }
   std::mt19937_64 rng(std::atoll(argv[3]));
   bool thorough = std::atoi(argv[4]) != 0;
+  // a second and third live sandbox, so that "outside this sandbox" includes "inside another";
+  // the sandbox under test is the first one created, or (SBX_LAST) the last
   RS sandbox;
-  sandbox.create_sandbox();
-  sb = &sandbox;
-  BASE = sandbox.get_sandbox_impl()->base;
-  // a second and third live sandbox, so that "outside this sandbox" includes "inside another"
   RS other1, other2;
+#ifdef SBX_LAST
   other1.create_sandbox();
   other2.create_sandbox();
+  sandbox.create_sandbox();
+#else
+  sandbox.create_sandbox();
+  other1.create_sandbox();
+  other2.create_sandbox();
+#endif
+  sb = &sandbox;
+  BASE = sandbox.get_sandbox_impl()->base;
   if (mode == "c05") {
     c05_pointee<char>(rng, thorough, true);
     c05_pointee<int>(rng, thorough, true);
